@@ -33,7 +33,7 @@ use crate::manager::ProjectManager;
 use crate::modes::wsutil::{self, HLogger, LogSink, Workspace};
 use crate::threadpool::ThreadPool;
 use crate::utils::Position;
-use crate::verif_hooks::{self, YieldController};
+use crate::verif_hooks::{self, TreeYieldController};
 
 const STUCK: Duration = Duration::from_secs(20);
 
@@ -100,7 +100,7 @@ impl Ctl {
     }
 }
 
-impl YieldController for Ctl {
+impl TreeYieldController for Ctl {
     fn at(&self, _name: &str) {
         let st = self.st.lock().unwrap();
         if !st.token_mode {
@@ -212,7 +212,7 @@ fn build(ws: &Workspace, chunk: usize, workers: usize, sched: &str, want: &Optio
     *ctl.tree.lock().unwrap() = Some(tree.clone());
     pm.entity_tree_service = tree.clone();
     let pool = ThreadPool::new(workers, HLogger::with_sink(Arc::new(PoolSink(ctl.clone()))));
-    verif_hooks::install_controller(ctl.clone());
+    verif_hooks::tree_install_controller(ctl.clone());
     let mut stuck = false;
     if token_mode {
         // one parking job per worker; afterwards every worker is parked at "finished job"
@@ -273,7 +273,7 @@ fn build(ws: &Workspace, chunk: usize, workers: usize, sched: &str, want: &Optio
         ctl.cv.notify_all();
     }
     drop(pool); // sends Terminate to every worker and joins: all chunk jobs are done
-    verif_hooks::clear_controller();
+    verif_hooks::tree_clear_controller();
     *ctl.tree.lock().unwrap() = None;
     let st = ctl.st.lock().unwrap();
     let goc = if !token_mode || st.yields == 0 {
